@@ -44,7 +44,7 @@ for d in sorted(os.listdir(S)):
             break
     meta = {
         "property": d.split("_")[0],
-        "round": 4 if d in ("C15_m5", "C16_m3", "C10_m3", "C19_m4", "C11_m6") else 3 if d in ("C13_m5", "C13_m6", "C15_m3", "C15_m4", "C18_m3", "C18_m4", "C11_m5") else
+        "round": 4 if d in ("C15_m5", "C16_m3", "C10_m3", "C19_m4", "C11_m6", "C13_m7") else 3 if d in ("C13_m5", "C13_m6", "C15_m3", "C15_m4", "C18_m3", "C18_m4", "C11_m5") else
                  (1 if int(re.sub(r"\D", "", d.split("_m")[1])) <= {"C09": 3, "C19": 3}.get(d.split("_")[0], 2) else 2),
         "what_it_breaks": am.get("what_it_breaks", ""),
         "needs_to_manifest": am.get("needs_to_manifest", ""),
